@@ -52,3 +52,7 @@ simple_frame_codec!(
     },
     stream_data_blocked_tag!()
 );
+
+#[cfg(all(aws_s2n_quic_verif, test))]
+#[path = "/verif/harness/core/frame_stream_data_blocked.rs"]
+mod verif;
